@@ -24,6 +24,20 @@ pub fn husk(name: Option<String>, status: u8) -> Husk {
     }
 }
 
+/// a husk that carries a *remote* actor id (as the proxy of an actor of another node does): its pid may coincide with a local actor's pid
+#[cfg(feature = "cluster")]
+pub fn husk_remote(node: u64, pid: u64, status: u8) -> Husk {
+    let (cell, ports) = ActorCell::new_remote::<Dummy>(None, ActorId::Remote { node_id: node, pid }).expect("remote husk construction");
+    cell.inner.status.store(status, std::sync::atomic::Ordering::SeqCst);
+    let mut guard = ActorLifecycleGuard::new(cell.clone());
+    guard.mark_running();
+    Husk {
+        cell,
+        ports: Arc::new(Mutex::new(Some(ports))),
+        guard: Some(guard),
+    }
+}
+
 impl Husk {
     /// the exit path of the actor task: `lifecycle.finish(event)`
     pub fn finish(&mut self) {
